@@ -65,9 +65,6 @@ class HGen(UGen):
                 return None
             d.update(defn=items, how=draw(st.sampled_from(["ops", "term"])),
                      refsym=(what == "dup_dim_refsym"))
-            has_ref = all(m.types[ti].has_ref for ti, _ in items)
-            if what == "dup_dim_refsym" and not has_ref:
-                d["refsym"] = False
             return d
         if what in ("dup_symbol", "dup_symbol_type"):
             if not m.units:
